@@ -95,6 +95,52 @@ def raw4_x86(r0: int, w0: int, r1: int, w1: int, r2: int, w2: int, r3: int, w3: 
     return _scan("x86", [1, 1, 1, 1], [r0, w0, r1, w1, r2, w2, r3, w3], [False, k1, k2, False], False, prefix=5)
 
 
+def _multi_concrete(isa, pat, kind):
+    """i0 writes TWO registers (A and B: two destinations, or for kind 1 a load with data register A and
+    written-back base B); i1 reads X and writes Y; i2 reads Z.  pat over [A, B, X, Y, Z]."""
+    A, B, X, Y, Z = pat
+    if A == B:
+        return None
+    model = mk_model(isa, ports=["0"], p_index_latency=3)
+    if kind == 1:
+        mem = MemoryOperand(base=class_reg(isa, B), offset=None, post_indexed={"value": 8})
+        wb = class_reg(isa, B)
+        wb.post_indexed = mem.post_indexed
+        i0 = iform(1, src=[mem], dst=[class_reg(isa, A)], src_dst=[wb], lat=10, wo=1, flags=[INSTR_FLAGS.HAS_LD, INSTR_FLAGS.LD])
+        r0 = {B}
+    else:
+        i0 = iform(1, src=[class_reg(isa, 8)], dst=[class_reg(isa, A), class_reg(isa, B)], lat=10, wo=1)
+        r0 = {8}
+    i1 = iform(2, src=[class_reg(isa, X)], dst=[class_reg(isa, Y)], lat=11, wo=2)
+    i2 = iform(3, src=[class_reg(isa, Z)], dst=[class_reg(isa, 7)], lat=12, wo=4)
+    g = DG([i0, i1, i2], NativeParser(PX if isa == "x86" else PA), model=model)
+    got = set(_edges(g, 3))
+    ref = set((i, j) for i, j, _ in ref_raw([(r0, {A, B}), ({X}, {Y}), ({Z}, {7})]))
+    return got == ref, len(ref) > 0, {"pattern": list(pat), "kind": ["two destinations", "load with write-back"][kind], "edges": sorted(map(list, ref))}
+
+
+def raw_multi_dest(a: int, b: int, x: int, y: int, z: int, kind: int, a64: bool) -> bool:
+    """
+    pre: 0 <= kind <= 1
+    post: _
+    """
+    if skip(locals()):
+        return True
+    flat = [a, b, x, y, z]
+    pre = canon(flat[:3])
+    if not in_shard_index(pattern_index(pre)):
+        return True
+    pat = canon(flat)
+    k = pick(kind, 2)
+    isa = "aarch64" if (a64 or k == 1) else "x86"
+    if k == 1 and not a64:
+        return True
+    res = native(_multi_concrete, isa, list(pat), k)
+    if res is None:
+        return True
+    return verdict(res[0], nontrivial=res[1], sample=res[2])
+
+
 def raw3_two_reads(a0: int, b0: int, w0: int, a1: int, b1: int, w1: int, a2: int, b2: int, w2: int) -> bool:
     """
     post: _
@@ -272,7 +318,7 @@ def raw_weights(lat0: int, wo0: int, pil: int, wb: bool, has_ld: bool) -> bool:
 ROLE = [(True, True), (True, False), (False, True), (False, False)]
 
 
-def _roles_concrete(isa, nops, roles, entry_present, hidden, hidden_role, breaks, all_equal, mem_pos, mem_mode, mem_entry):
+def _roles_concrete(isa, nops, roles, entry_present, hidden, hidden_role, breaks, all_equal, mem_pos, mem_mode, mem_entry, suffix=False):
     """One synthetic mnemonic 'op' with nops register operands (operand mem_pos is a memory
     operand if mem_pos < nops).  Returns (ok, nontrivial, sample)."""
     isa_model = mk_model(isa)
@@ -302,7 +348,8 @@ def _roles_concrete(isa, nops, roles, entry_present, hidden, hidden_role, breaks
             ops.append(MemoryOperand(base=class_reg(isa, 5), offset=ImmediateOperand(value=8), pre_indexed=pre, post_indexed=post))
         else:
             ops.append(class_reg(isa, 0 if all_equal else k))
-    f = InstructionForm(mnemonic="op", operands=ops, line="op", line_number=1)
+    # suffix: the instruction carries an AT&T size suffix / AArch64 '.x' suffix, the ISA entry does not
+    f = InstructionForm(mnemonic=("opq" if isa == "x86" else "op.x") if suffix else "op", operands=ops, line="op", line_number=1)
     f.flags = []
     sem.assign_src_dst(f)
     so = f.semantic_operands
@@ -382,6 +429,9 @@ def _role_cases():
                         for mm in ((0, 1, 2) if isa == "aarch64" else (0,)):
                             for me in (False, True):
                                 cases.append((isa, n, rr, True, hid, hr, False, False, mp, mm, me))
+                                if mm == 0:
+                                    cases.append((isa, n, rr, True, hid, hr, False, False, mp, mm, me, True))     # suffixed mnemonic
+                    cases.append((isa, n, rr, True, hid, hr, False, False, 3, 0, False, True))
     return cases
 
 
@@ -547,6 +597,7 @@ CELLS = {
     "raw3_a64": {"fn": raw3_a64, "tiers": ("thorough",), "bound": "same on AArch64 (x/w aliases)", "budget": {"thorough": 600}, "shards": 15},
     "raw4_x86": {"fn": raw4_x86, "bound": "n=4, all Bell(8)=4140 patterns x write kind of the two middle instructions", "budget": {"quick": 170, "thorough": 900}, "shards": 13},
     "raw3_two_reads": {"fn": raw3_two_reads, "tiers": ("thorough",), "bound": "n=3, 2 reads + 1 write per instruction, all Bell(9)=21147 patterns", "budget": {"thorough": 1500}, "shards": 52},
+    "raw_multi_dest": {"fn": raw_multi_dest, "bound": "producer writing two registers (two destinations / data register + written-back base), an instruction that may overwrite either, a consumer that may read either: all coincidence patterns of 5 slots, both ISAs", "budget": {"quick": 150, "thorough": 300}, "shards": 5},
     "raw_flags": {"fn": raw_flags, "bound": "n=3, flag read/write bits per instruction, flag dependencies on/off, same/different flag, with/without a register chain, both ISAs (1024 cases)",
                   "budget": {"quick": 170, "thorough": 600}, "shards": 4},
     "raw_mem_a64": {"fn": raw_mem_a64, "bound": "producer / memory instruction (base, optional index, data register; load or store; plain, pre- or post-indexed) / consumer; all coincidence patterns of the 5 register slots",
